@@ -27,6 +27,7 @@ Next ==
           /\ PutBatch(<<d1, d2>>, <<i1, i2>>)
           /\ lastput' = [x \in DOMAIN lastput \cup {i1, i2} |-> IF x = i1 THEN d1 ELSE IF x = i2 THEN d2 ELSE lastput[x]]
     \/ \E id \in Ids : Remove(id) /\ UNCHANGED lastput
+    \/ \E a, b \in Ids, n \in 0..2 : RemoveBatch(<<a, b>>, n) /\ UNCHANGED lastput
     \/ \E id \in Ids : RemoveRefused(id) /\ UNCHANGED lastput
     \/ Clear /\ UNCHANGED lastput
     \/ /\ issued = {}
@@ -55,6 +56,20 @@ LenAgrees ==
     /\ \A id \in Live : /\ ContainsOk(id, TRUE) /\ ~ContainsOk(id, FALSE)
                         /\ \A n \in 0..1 : SizeOk(id, TRUE, <<n>>) <=> n = lastput[id].len
                         /\ ~SizeOk(id, TRUE, <<>>)
+(* batch forms = the sequence of single operations; iter_ids = the live ids *)
+OptOf(id) == IF IsLive(id) THEN [some |-> TRUE, d |-> lastput[id]] ELSE [some |-> FALSE, d |-> [len |-> 0, h |-> <<0, 0>>]]
+BatchLaws ==
+    \A a, b \in Ids :
+        /\ GetBatchOk(<<a, b>>, TRUE, <<OptOf(a), OptOf(b)>>)
+        /\ \A d \in Recs : /\ IsLive(a) /\ d /= lastput[a] => ~GetBatchOk(<<a, b>>, TRUE, <<[some |-> TRUE, d |-> d], OptOf(b)>>)
+                           /\ ~IsLive(a) => ~GetBatchOk(<<a, b>>, TRUE, <<[some |-> TRUE, d |-> d], OptOf(b)>>)
+        /\ IsLive(a) => ~GetBatchOk(<<a, b>>, TRUE, <<[some |-> FALSE, d |-> lastput[a]], OptOf(b)>>)
+        /\ GetBatchOk(<<a, b>>, FALSE, <<>>) <=> (~IsLive(a) \/ ~IsLive(b))
+        /\ RemoveBatchMax(<<a, b>>) = (IF IsLive(a) THEN 1 ELSE 0) + (IF IsLive(b) /\ b /= a THEN 1 ELSE 0)
+        /\ \A n \in 0..3 : RemoveBatchOkN(<<a, b>>, n) <=> n <= RemoveBatchMax(<<a, b>>)
+IterLaws ==
+    /\ \A a, b \in Ids : IterIdsOk(<<a, b>>) <=> (a /= b /\ Live = {a, b})
+    /\ IterIdsOk(<<>>) <=> Live = {}
 (* the keyed extension: the latest live record under a key is the only accepted answer *)
 KeyLaws ==
     \A k \in Keys :
